@@ -242,8 +242,6 @@ def valid_rx(c):
             if a[0] in lenset:
                 return False
             unpredictable = True
-    if unpredictable and c[2] <= len(dl):
-        return False
     return True
 
 
@@ -259,7 +257,7 @@ def _gen_rx_once(rng):
     seed = rng.randrange(1 << 64)
     dcid = rng.choice([0, 1, 4, 8, 8, 16, 20])
     hlen = 1 + dcid
-    limited = rng.random() < 0.4                       # small integrity limit: only garblings with a determined pn
+    limited = rng.random() < 0.4                       # small integrity limit
     limit = rng.choice([1, 2, 3, 3, 4, 6, 10]) if limited else BIG_LIMIT
     big = rng.random() < 0.5
     base = rng.randrange(0, 12000) if big else rng.randrange(0, 40)
@@ -292,7 +290,7 @@ def _gen_rx_once(rng):
                 c += [1, k]                                            # immediate replay
         elif r < 0.75:
             n = seals[k][1]
-            if limited:
+            if limited and rng.random() < 0.5:
                 cand = [0] * 2 + list(range(1, hlen)) + list(range(hlen + n, hlen + 4)) + list(range(hlen + 20, lens[k]))
                 pos = rng.choice(cand)
                 x = rng.choice([0x04, 0x08, 0x10, 0x18, 0x20, 0x40, 0x80, 0xc0]) if pos == 0 else rng.choice([1, 2, 0x80, 0xff, rng.randrange(1, 256)])
@@ -303,8 +301,6 @@ def _gen_rx_once(rng):
             c += [2, k, pos, x]
         elif r < 0.83:
             c += [3, k, rng.choice([0, 1, hlen, hlen + 4, hlen + 19, hlen + 20, lens[k] - 16, lens[k] - 1, rng.randrange(lens[k])])]
-        elif limited:
-            c += [1, k]
         elif r < 0.93:
             j = rng.randrange(len(seals))
             hk = hlen + seals[k][1]
@@ -340,6 +336,11 @@ def fixed_rx(tier):
             for pos in range(ln):
                 c += [2, 0, pos, x]
             out.append(c)
+    # every single-byte mutation of the first byte and header with a small integrity limit: each garbled copy that is
+    # still a 1-RTT packet counts exactly one failure, whatever bits it sets
+    for L in (2, 5):
+        for x in (0x08, 0x10, 0x18, 0x04, 0x03, 0x20, 0x1f):
+            out.append([5, 4, L, 0, 9, 2, 5, 1, 2, 3, 4, 5, 1, 0] + [2, 0, 0, x] * (L + 1) + [1, 0])
     # window edges: 129 below the largest processed packet number is too old, 128 is not
     for d in (127, 128, 129, 130):
         out.append([99, 8, BIG_LIMIT, 0, 1000, 2, 4, 1, 2, 3, 4, 0, 1000 - d, 2, 4, 9, 9, 9, 9, 1, 0, 1, 1, 1, 1, 1, 0])
@@ -348,7 +349,7 @@ def fixed_rx(tier):
         c = [7, 8, L, 0, 10, 2, 6, 1, 2, 3, 4, 5, 6, 0, 11, 2, 6, 6, 5, 4, 3, 2, 1, 1, 0]
         c += [2, 1, 8 + 1 + 2 + 6 + 15, 1] * (L + 1) + [1, 1]
         out.append(c)
-    # garbled copies of an ALREADY PROCESSED packet number are reported Duplicate before the limit error is looked at
+    # garbled copies of an ALREADY PROCESSED packet number: the L-th still closes the connection (fixed by 8163dbb)
     for L in (1, 3):
         c = [7, 8, L, 0, 10, 2, 6, 1, 2, 3, 4, 5, 6, 0, 11, 2, 6, 6, 5, 4, 3, 2, 1, 1, 0]
         c += [2, 0, 8 + 1 + 2 + 6 + 15, 1] * (L + 3) + [2, 1, 8 + 1 + 2 + 6 + 15, 1, 1, 1]
@@ -399,49 +400,97 @@ def _tok_bytes(t):
     return list(t.to_bytes(16, "big"))
 
 
+class _Reg:
+    """just enough of PeerIdRegistry to keep generated NEW_CONNECTION_ID frames acceptable"""
+    def __init__(self, flag, tok):
+        self.open = True
+        self.rpt = 0
+        self.nseq = 0
+        self.ids = [[0, tok if flag else None, "use"]]      # seq, token, status new/use/ret/ack
+        self.toks = [tok] if flag else []
+
+    def can_new(self, seq, rpt, tok):
+        if seq != self.nseq + 1 or tok in self.toks:
+            return False
+        rp = max(self.rpt, rpt)
+        act = sum(1 for e in self.ids if e[2] in ("new", "use") and not e[0] < rp) + (0 if seq < rp else 1)
+        ret = len(self.ids) + 1 - act
+        return act <= 3 and ret <= 6
+
+    def new(self, seq, rpt, tok):
+        self.rpt = max(self.rpt, rpt)
+        for e in self.ids:
+            if e[2] in ("new", "use") and e[0] < self.rpt:
+                e[2] = "ret"
+        self.ids.append([seq, tok, "ret" if seq < self.rpt else "new"])
+        self.nseq = seq
+        self.toks.append(tok)
+
+    def tx(self, pn):
+        for e in self.ids:
+            if e[2] == "ret":
+                e[2] = ("ack", pn)
+
+    def ack(self, pn):
+        self.ids = [e for e in self.ids if e[2] != ("ack", pn)]
+
+
 def gen_resetmap(rng):
     c = []
-    conns = []          # per connection: dict(open, nseq, fresh, toks)
+    conns = []
     pool = [rng.randrange(1, 1 << 100) for _ in range(4)] + [1, (1 << 120) + 5]
     allt = []
-    for _ in range(rng.choice([3, 6, 12, 25])):
+    pn = 0
+    for _ in range(rng.choice([3, 6, 12, 25, 40])):
         r = rng.random()
-        openc = [i for i, k in enumerate(conns) if k["open"]]
-        if not conns or r < 0.15:
+        openc = [i for i, k in enumerate(conns) if k.open]
+        if not conns or r < 0.12:
+            if len(conns) >= 10:
+                continue
             flag = rng.random() < 0.8
             tok = rng.choice(pool) if rng.random() < 0.3 else rng.randrange(1 << 120)
             c += [0, 1 if flag else 0, tok]
-            conns.append({"open": True, "nseq": 0, "toks": [tok] if flag else []})
+            conns.append(_Reg(flag, tok))
             if flag:
                 allt.append(tok)
         elif r < 0.40 and openc:
             i = rng.choice(openc)
             k = conns[i]
-            if k["nseq"] >= 2:
-                continue
             tok = rng.choice(pool) if rng.random() < 0.3 else rng.randrange(1 << 120)
-            if tok in k["toks"]:
+            seq = k.nseq + 1
+            retire = rng.random() < 0.35
+            rpt = seq if retire else 0
+            if not k.can_new(seq, rpt, tok):
                 continue
-            k["nseq"] += 1
-            k["toks"].append(tok)
+            k.new(seq, rpt, tok)
             allt.append(tok)
-            c += [1, i, k["nseq"], tok]
-        elif r < 0.55 and openc:
+            c += [5 if retire else 1, i, seq, tok]
+        elif r < 0.52 and openc:
             c += [2, rng.choice(openc)]
-        elif r < 0.62 and openc:
+        elif r < 0.60 and openc:
             i = rng.choice(openc)
-            conns[i]["open"] = False
+            pn += 1
+            conns[i].tx(pn)
+            c += [6, i, pn]
+        elif r < 0.68 and openc:
+            i = rng.choice(openc)
+            q = rng.randrange(1, pn + 1) if pn else 1
+            conns[i].ack(q)
+            c += [7, i, q]
+        elif r < 0.73 and openc:
+            i = rng.choice(openc)
+            conns[i].open = False
             c += [3, i]
         else:
             pre = _rbytes(rng, rng.choice([0, 1, 7, 30]))
             q = rng.random()
-            if allt and q < 0.55:
+            if allt and q < 0.6:
                 d = pre + _tok_bytes(rng.choice(allt))
-            elif allt and q < 0.75:
+            elif allt and q < 0.78:
                 t = _tok_bytes(rng.choice(allt))
                 t[rng.randrange(16)] ^= 1 << rng.randrange(8)
                 d = pre + t
-            elif allt and q < 0.85:
+            elif allt and q < 0.86:
                 d = pre + _tok_bytes(rng.choice(allt)) + _rbytes(rng, rng.choice([1, 3]))
             else:
                 d = _rbytes(rng, rng.choice([0, 5, 15, 16, 17, 33]))
@@ -460,34 +509,50 @@ def fixed_resetmap(tier):
         [0, 1, t1, 0, 1, t1] + d(t1) + d(t1),                         # the same token registered by two connections
         [0, 0, t1] + d(t1),                                           # no token in the transport parameters
         [0, 1, t1, 4, 15] + _tok_bytes(t1)[1:],                       # shorter than a token
+        # retirement: the initial id is retired by retire_prior_to; its token still counts until the
+        # RETIRE_CONNECTION_ID is acknowledged, and is forgotten afterwards
+        [0, 1, t1, 5, 0, 1, t2, 2, 0, 6, 0, 1, 7, 0, 1] + d(t1) + d(t2),
+        [0, 1, t1, 5, 0, 1, t2, 2, 0, 6, 0, 1] + d(t1),
+        [0, 1, t1, 5, 0, 1, t2, 6, 0, 1, 7, 0, 2] + d(t1) + [7, 0, 1] + d(t1),
     ]
 
 
 def valid_resetmap(c):
     i, conns = 0, []
+    def ok(k):
+        return 0 <= k < len(conns) and conns[k].open
     while i < len(c):
         op = c[i]
         if op == 0 and i + 3 <= len(c):
             if not (0 <= c[i + 2] < (1 << 127)):
                 return False
-            conns.append({"open": True, "nseq": 0, "toks": [c[i + 2]] if c[i + 1] else []})
+            conns.append(_Reg(c[i + 1] != 0, c[i + 2]))
             i += 3
-        elif op == 1 and i + 4 <= len(c):
+        elif op in (1, 5) and i + 4 <= len(c):
             k, seq, tok = c[i + 1], c[i + 2], c[i + 3]
-            if not (0 <= k < len(conns)) or not conns[k]["open"] or not (0 <= tok < (1 << 127)):
+            if not ok(k) or not (0 <= tok < (1 << 127)) or not (0 < seq < 200):
                 return False
-            if seq != conns[k]["nseq"] + 1 or seq > 2 or tok in conns[k]["toks"]:
+            rpt = seq if op == 5 else 0
+            if not conns[k].can_new(seq, rpt, tok):
                 return False
-            conns[k]["nseq"] = seq
-            conns[k]["toks"].append(tok)
+            conns[k].new(seq, rpt, tok)
             i += 4
         elif op in (2, 3) and i + 2 <= len(c):
             k = c[i + 1]
-            if not (0 <= k < len(conns)) or not conns[k]["open"]:
+            if not ok(k):
                 return False
             if op == 3:
-                conns[k]["open"] = False
+                conns[k].open = False
             i += 2
+        elif op in (6, 7) and i + 3 <= len(c):
+            k, pn = c[i + 1], c[i + 2]
+            if not ok(k) or not (0 <= pn < (1 << 40)):
+                return False
+            if op == 6:
+                conns[k].tx(pn)
+            else:
+                conns[k].ack(pn)
+            i += 3
         elif op == 4 and i + 2 <= len(c) and 0 <= c[i + 1] and i + 2 + c[i + 1] <= len(c):
             if any(not (0 <= b <= 255) for b in c[i + 2:i + 2 + c[i + 1]]):
                 return False
@@ -553,7 +618,7 @@ registry.register("C06", {
             "(header of one packet + body of another), random datagrams and packet-number reuse by the peer; reset: every single-bit "
             "change of a registered token, tokens not at the end, short datagrams, duplicate tokens; resetmap (real PeerIdRegistry + "
             "ConnectionIdMapper through the hook): connections opened with/without a transport-parameter token, NEW_CONNECTION_ID, ids taken "
-            "into use, connections dropped, datagrams ending in a registered / one-bit-off / misplaced token, the same token on two connections; "
+            "into use, ids retired by retire_prior_to (RETIRE_CONNECTION_ID written and acknowledged), connections dropped, datagrams ending in a registered / one-bit-off / misplaced token, the same token on two connections; "
             "rxpipe additionally: integrity limits 1..10 through the real KeySet (failure counter, AEAD_LIMIT_REACHED)",
     "assumptions": [
         "ideal AEAD (open succeeds only on what seal produced) is a hypothesis of the rxpipe theorems, not proved",
